@@ -95,7 +95,7 @@ impl Cfg {
     }
 }
 
-/// tick spacings {1, 64, 32768} x start indexes {0, a negative multiple, the array straddling MIN_TICK_INDEX, the last
+/// tick spacings {1, 64, 32768} (+ 3, 96, 32896: not powers of two) x start indexes {0, a negative multiple, the array straddling MIN_TICK_INDEX, the last
 /// array before MAX_TICK_INDEX}; for spacing 32768 only two arrays exist at all (0 = last, and the straddling one).
 fn configs() -> Vec<Cfg> {
     let mut v: Vec<Cfg> = vec![];
@@ -111,6 +111,18 @@ fn configs() -> Vec<Cfg> {
             let c = Cfg { ts, start: s };
             if !v.contains(&c) {
                 v.push(c);
+            }
+        }
+    }
+    // spacings that are not powers of two (any u16 can be a fee tier's spacing; 32896 is the deployed full-range-only tier):
+    // arithmetic that treats the spacing as a mask or a shift is only right for powers of two
+    for (ts, starts) in [(3u16, vec![0i32, -1]), (96, vec![-3]), (32896, vec![0, -1])] {
+        let tia = 88 * ts as i32;
+        let min_start = MIN_TICK_INDEX - (MIN_TICK_INDEX % tia + tia);
+        for k in starts {
+            let s = if k == -1 { min_start } else { k * tia };
+            if s >= min_start {
+                v.push(Cfg { ts, start: s });
             }
         }
     }
